@@ -154,6 +154,11 @@ THEOREMS = [
     "Verif.C18.exposure_times_roundtrip",
     "Verif.C18.reexport_fixed_point_float",
     "Verif.C18.reexport_after_export_float",
+    "Verif.C18.tuple_index_is_crop_then_frames",
+    "Verif.C18.export_selection_tuple",
+    "Verif.C18.export_program_selection",
+    "Verif.C18.program_establishes_hypotheses",
+    "Verif.C18.program_reexport",
 ]
 RULE = (
     "corpus + exhaustive small scope + seeded random + malformed stream. stack: real TIFF stacks written with tifffile "
